@@ -124,7 +124,7 @@ def dicts(values):
 
 
 def units(tier):
-    us = [("UPDATE", i) for i in range(16)] + [("FIND",), ("FINDLIST",), ("FINDKEY",), ("MAPFILE",), ("UPDATE2",)]
+    us = [("UPDATE", i) for i in range(16)] + [("FIND",), ("FINDLIST",), ("FINDKEY",), ("MAPFILE",), ("UPDATE2",), ("FUNUM",)]
     return us
 
 
@@ -381,6 +381,38 @@ def run_update2(res):
     R.add_sub(res, "two-step update histories with shared patch objects", n)
 
 
+def run_findunique_numbers(res):
+    """findunique returns the sorted distinct values present - also for numeric keys holding ints and floats"""
+    import mappyfile
+
+    vals = [None, 500, 1000.5, 2500, 2, 2.0, 0, -1.5]
+    n = 0
+    for L in range(0, 4):
+        for combo in itertools.product(range(len(vals)), repeat=L):
+            lst = []
+            for i, vi in enumerate(combo):
+                d = {"__type__": "class", "name": "c%d" % i}
+                if vals[vi] is not None:
+                    d["maxscaledenom"] = vals[vi]
+                lst.append(mk(d, True))
+            exp = sorted({vals[vi] for vi in combo if vals[vi] is not None})
+            res["evals"] += 1
+            n += 1
+            try:
+                got = mappyfile.findunique(lst, "maxscaledenom")
+                ok = got == exp and all(type(a) is type(b) or a == b for a, b in zip(got, exp))
+                why = "result %r, reference %r" % (got, exp)
+            except Exception as e:
+                ok, why = False, "raised %s: %s" % (type(e).__name__, e)
+            if ok:
+                R.add_outcome(res, "agrees")
+                res["states"].add(R.h64(("fu", combo)))
+            else:
+                R.add_outcome(res, "differs")
+                R.add_violation(res, "findunique|values=%r" % ([vals[i] for i in combo],), "findunique differs from the sorted distinct values: " + why, {"op": "findunique_numbers"}, None)
+    R.add_sub(res, "findunique over numeric values", n)
+
+
 def run_findkey(res):
     import mappyfile
 
@@ -472,6 +504,8 @@ def run_unit(unit):
         run_find_listvalues(res)
     elif unit[0] == "UPDATE2":
         run_update2(res)
+    elif unit[0] == "FUNUM":
+        run_findunique_numbers(res)
     elif unit[0] == "FINDKEY":
         run_findkey(res)
     else:
